@@ -342,39 +342,67 @@ class Unit(object):
 
     # -- *args / **kwds
     def run_args(self, shape):
+        """forwarding: whatever list of extra positional / keyword arguments the call receives, f receives exactly
+        those objects (identity) on every evaluation.  Forms of the list: two objects; ONE argument that is itself a
+        tuple / a list / a dict / None; a (tuple, dict) pair (the scipy `args=` spelling is NOT this library's: the
+        call signature is (x, *args, **kwds)); keywords only.  All forms run on the first two shapes, form 0 on all."""
+        for form in (ARG_FORMS if shape in SHAPES[:2] else ARG_FORMS[:1]):
+            self.run_args_form(shape, form)
+
+    def run_args_form(self, shape, form):
         s1, s2, s3 = object(), [1.5, 'payload'], {'k': object()}
+        sent_args, sent_kw = arg_form(form, s1, s2, s3)
         seen = {'n': 0, 'bad_pos': 0, 'bad_kw': 0}
         f = FUNCS[self.fname]
 
         def g(x, *args, **kwds):
             seen['n'] += 1
-            if not (len(args) == 2 and args[0] is s1 and args[1] is s2):
+            if not (len(args) == len(sent_args) and all(a is b for a, b in zip(args, sent_args))):
                 seen['bad_pos'] += 1
-            if not (set(kwds) == {'tag', 'opt'} and kwds['tag'] is s3 and kwds['opt'] is s1):
+            if not (set(kwds) == set(sent_kw) and all(kwds[k] is sent_kw[k] for k in sent_kw)):
                 seen['bad_kw'] += 1
             return f(x)
         x = np.full(shape, 0.3, dtype=float)
         self.acc.evaluations += 1
         case = dict(kind='args', shape=list(shape))
+        if form != ARG_FORMS[0]:
+            case['form'] = form
         try:
-            der, _ = call_lib(self.fname, self.method, self.n, self.order, x, (s1, s2),
-                              dict(tag=s3, opt=s1), fun=g)
+            der, _ = call_lib(self.fname, self.method, self.n, self.order, x, sent_args, dict(sent_kw), fun=g)
         except Failed as e:
-            self.violation('raised-' + e.kind, 'extra-arguments', case, 'call with *args/**kwds raised %s' % e,
-                           self.rank(shape))
+            self.violation('raised-' + e.kind, 'extra-arguments' + ('' if form == ARG_FORMS[0] else ':' + form), case,
+                           'call with extra arguments of the form %s raised %s' % (form, e), self.rank(shape))
             return
         ok = seen['n'] > 0 and not seen['bad_pos'] and not seen['bad_kw'] and s2 == [1.5, 'payload']
-        self.acc.case((self.fname, self.method, self.n, self.order, shape, 'args'), nontrivial=True,
-                      cell=['args/%s' % self.method, 'shape/%r' % (shape,)], outcome=ok, n_eval=0)
+        self.acc.case((self.fname, self.method, self.n, self.order, shape, 'args', form), nontrivial=True,
+                      cell=['args/%s' % self.method, 'shape/%r' % (shape,), 'args-form/' + form], outcome=ok, n_eval=0)
         self.acc.maxi('max_evaluations_of_f_with_sentinels_in_one_call', seen['n'])
         if not ok:
             what = ('never-evaluated' if seen['n'] == 0 else
                     'positional' if seen['bad_pos'] and not seen['bad_kw'] else
                     'keyword' if seen['bad_kw'] and not seen['bad_pos'] else
                     'positional+keyword' if seen['bad_pos'] else 'argument-mutated')
-            self.violation('args-not-forwarded', what, case,
-                           '%d evaluations of f: %d without the positional sentinels, %d without the keyword '
-                           'sentinels' % (seen['n'], seen['bad_pos'], seen['bad_kw']), self.rank(shape))
+            self.violation('args-not-forwarded', what + ('' if form == ARG_FORMS[0] else ':' + form), case,
+                           'extra arguments of the form %s: %d evaluations of f: %d without the positional objects sent, '
+                           '%d without the keyword objects sent' % (form, seen['n'], seen['bad_pos'], seen['bad_kw']),
+                           self.rank(shape))
+
+
+ARG_FORMS = ['two-objects+kwds', 'one-tuple', 'tuple+dict', 'one-list', 'one-dict', 'one-None', 'kwds-only',
+             'one-tuple+kwds']
+
+
+def arg_form(form, s1, s2, s3):
+    """(positional arguments, keyword arguments) sent with the call"""
+    kw = dict(tag=s3, opt=s1)
+    return {'two-objects+kwds': ((s1, s2), kw),
+            'one-tuple': (((s1, s2),), {}),
+            'tuple+dict': (((s1, s2), {'tag': s3}), {}),
+            'one-list': (([s1, s2],), {}),
+            'one-dict': (({'tag': s3},), {}),
+            'one-None': ((None,), {}),
+            'kwds-only': ((), kw),
+            'one-tuple+kwds': (((s1,),), kw)}[form]
 
 
 def zero_order(acc, fname, method, order):
@@ -594,7 +622,7 @@ def replay(case):
     def num(v):
         return float(v)
     if kind == 'args':
-        u.run_args(shape)
+        u.run_args_form(shape, case.get('form', ARG_FORMS[0]))
     else:
         u.scalars()
         if kind in ('scalar', 'constant', 'scalar-vs-array'):
